@@ -88,7 +88,8 @@ def main(n, seed):
             fs = LocalFileSystem()
             alg = "md5-dos2unix" if case % 4 == 3 else "md5"  # every fourth: a legacy pair of stores (ids carry the legacy name)
             cache = HashFileDB(fs, os.path.join(tmp, "cache"), hash_name=alg)
-            remote = HashFileDB(FFS(), os.path.join(tmp, "remote"), hash_name=alg)
+            # every eighth: the destination is a legacy store while the source is not (ids carry the SOURCE's name)
+            remote = HashFileDB(FFS(), os.path.join(tmp, "remote"), hash_name=("md5-dos2unix" if case % 8 == 5 else alg))
             trees = []
             for d in range(rnd.randint(2, 3)):
                 p = os.path.join(tmp, "ws", f"d{d}"); os.makedirs(p)
@@ -151,7 +152,7 @@ def main(n, seed):
             if problem:
                 fails.append({"fault": kind, "victims": sorted(victims), "dest_index": use_index, "algorithm": alg, "problem": problem})
     return {"evaluations": n, "distinct_nontrivial": len(distinct), "failures": fails[:3], "n_failures": len(fails),
-            "bound": "2-3 directories sharing a file, 1-2 failing uploads, fault kinds {EIO, source vanished, source corrupt under verify (half of them: the intact object delivered by someone else after the status query)}, with/without index, every fourth on a legacy (md5-dos2unix) pair of stores; every tenth: a fault-free transfer whose source objects live on two filesystems"}
+            "bound": "2-3 directories sharing a file, 1-2 failing uploads, fault kinds {EIO, source vanished, source corrupt under verify (half of them: the intact object delivered by someone else after the status query)}, with/without index, every fourth on a legacy (md5-dos2unix) pair of stores, every eighth from an md5 source into a legacy destination; every tenth: a fault-free transfer whose source objects live on two filesystems"}
 
 
 if __name__ == "__main__":
